@@ -8,7 +8,10 @@ C14 — fn:path / node.path / etree_iter_paths identify each node uniquely.
              namespace declarations and un-declarations, PIs with arbitrary NCName targets incl.
              repeated targets / targets equal to element names / operator and function names,
              interleaved text / comment siblings, document-level comments and PIs) x {ElementTree,
-             lxml} x {document root, element root, fragment}.  For EVERY node of the tree:
+             lxml} x {document root, element root, fragment}, and documents produced BY THE LIBRARY inside an
+             expression (parse-xml, parse-xml-fragment incl. several top-level elements / top-level text =
+             get_document_node(replace=True), json-to-xml, analyze-string) used as context root, as variable
+             and as argument of fn:path within the same expression.  For EVERY node of the tree:
                impl  = node.path ; fn:path(.) ; nodes selected by evaluating node.path ; by fn:path
                model = the same four computed by the Lean model (pathOf rendered, evalSteps)
                spec  = path prescribed by F&O 3.1 14.6 ; the node itself
@@ -256,7 +259,140 @@ def parse_input(case):
     return xml, obj, root, is_doc, doc_kids
 
 
+# --------------------------------------------------------------------------------------
+# documents produced BY THE LIBRARY inside an expression: parse-xml, parse-xml-fragment (well-formed
+# documents, several top-level elements, top-level text: the get_document_node(replace=True) branch),
+# json-to-xml, analyze-string (an element-rooted result)
+# --------------------------------------------------------------------------------------
+LIB_EXPR = {'parse-xml': 'parse-xml($a)', 'parse-xml-fragment': 'parse-xml-fragment($a)',
+            'json-to-xml': 'json-to-xml($a)', 'analyze-string': 'analyze-string($a, $b)'}
+
+
+def gen_json(rng, depth=2):
+    r = rng.random()
+    if depth == 0 or r < 0.35:
+        return rng.choice([1, 2.5, 'x', '', True, False, None, 'a b'])
+    if r < 0.65:
+        return [gen_json(rng, depth - 1) for _ in range(rng.choice([0, 1, 2, 3, 4]))]
+    return {k: gen_json(rng, depth - 1) for k in rng.sample(['a', 'b', 'c', 'a b', 'k1'], rng.choice([0, 1, 2, 3]))}
+
+
+def gen_libcase(rng):
+    lib = rng.choice(['et', 'lxml'])
+    kind = rng.choice(['parse-xml-fragment'] * 5 + ['parse-xml'] * 2 + ['json-to-xml', 'analyze-string'])
+    a, b = '', ''
+    if kind == 'parse-xml-fragment':
+        budget = [rng.choice([2, 5, 9])]
+        kids = []
+        for _ in range(rng.choice([0, 1, 2, 2, 3, 4, 5])):
+            r = rng.random()
+            if r < 0.55:
+                kids.append(gen_elem(rng, {}, rng.choice([0, 1, 2]), budget))
+            elif r < 0.8:
+                kids.append(['t', rng.choice(['top', 'x y', '1', ' '])])
+            else:
+                kids.append(gen_misc(rng))
+        a = ''.join(ser(k) for k in kids)
+    elif kind == 'parse-xml':
+        d = gen_doc(rng)
+        a = ser_doc(d)
+    elif kind == 'json-to-xml':
+        a = json.dumps(gen_json(rng, 3))
+    else:
+        a = ''.join(rng.choice('ab1 2') for _ in range(rng.randint(0, 8)))
+        b = rng.choice(['[0-9]+', '([a-z])([0-9])', 'a|b', ' '])
+    return {'libdoc': {'kind': kind, 'a': a, 'b': b}, 'doc': None, 'lib': lib, 'form': 'lib:' + kind, 'frag': None,
+            'ns': None, 'pns': rng.choice([0, 1, 2]), 'v31': True}
+
+
+def wrapper_tokens(kids_text, children, lib, namespaces, toks, kinds):
+    """tokens of a document whose children are: leading text, then the etree nodes with their tails"""
+    sub, kk, n = [], [], 0
+    if kids_text is not None:
+        sub.append('T'); kk.append(('text', None)); n += 1
+    for ch in children:
+        model_tokens(ch, lib, namespaces, sub, kk)
+        n += 1
+        if ch.tail is not None:
+            sub.append('T'); kk.append(('text', None)); n += 1
+    kinds.append(('doc', None))
+    toks.extend(['D', str(n)])
+    toks.extend(sub)
+    kinds.extend(kk)
+
+
+def libdoc_request(case):
+    """the library call happens here (its result is the *input* of the path generators); the model tree is
+    derived from an independent parse of the argument string (parse-xml / parse-xml-fragment) or from the
+    ElementTree the library produced (json-to-xml, analyze-string)"""
+    ld, lib = case['libdoc'], case['lib']
+    if lib == 'et':
+        import xml.etree.ElementTree as etree
+    else:
+        import lxml.etree as etree
+    node, err = None, None
+    try:
+        from elementpath import XPathContext
+        from elementpath.xpath31 import XPath31Parser
+        from elementpath.xpath_nodes import DocumentNode, ElementNode
+        out = list(XPath31Parser().parse(LIB_EXPR[ld['kind']]).select(
+            XPathContext(etree.XML('<x/>'), variables={'a': ld['a'], 'b': ld['b']})))
+        if len(out) == 1 and isinstance(out[0], (DocumentNode, ElementNode)):
+            node = out[0]
+        else:
+            err = 'NOT-ONE-NODE:' + repr(out)[:60]
+    except Exception as e:
+        err = err_text(e)
+    ns = None
+    if lib == 'et' and node is not None:
+        try:
+            ns = dict(node.tree.namespaces or {})     # the namespaces= the tree was built with
+        except Exception:
+            ns = {}
+    toks, kinds = [], []
+    root, is_doc = None, True
+    if ld['kind'] in ('parse-xml', 'parse-xml-fragment'):
+        try:
+            if lib == 'lxml':
+                r = etree.XML(ld['a'].encode('utf-8'))
+            elif ld['kind'] == 'parse-xml':
+                # fn:parse-xml keeps comments and PIs with ElementTree, fn:parse-xml-fragment does not
+                r = etree.XML(ld['a'], etree.XMLParser(target=etree.TreeBuilder(insert_comments=True, insert_pis=True)))
+            else:
+                r = etree.XML(ld['a'])
+            sibs_before = list(reversed(list(r.itersiblings(preceding=True)))) if lib == 'lxml' else []
+            sibs_after = list(r.itersiblings()) if lib == 'lxml' else []
+            kk = sibs_before + [r] + sibs_after
+            kinds.append(('doc', None))
+            toks.extend(['D', str(len(kk))])
+            for k in kk:
+                model_tokens(k, lib, ns, toks, kinds)
+        except Exception:
+            if ld['kind'] == 'parse-xml':
+                raise
+            w = etree.XML(('<document>%s</document>' % ld['a']).encode('utf-8') if lib == 'lxml'
+                          else '<document>%s</document>' % ld['a'])
+            wrapper_tokens(w.text, list(w), lib, ns, toks, kinds)
+    elif node is not None:
+        v = node.value
+        if hasattr(v, 'getroot'):
+            root = v.getroot()
+            kinds.append(('doc', None))
+            toks.extend(['D', '1'])
+            model_tokens(root, lib, ns, toks, kinds)
+        else:
+            root, is_doc = v, False
+            model_tokens(root, lib, ns, toks, kinds)
+    else:
+        toks, kinds = ['D', '0'], [('doc', None)]
+    line = f"root={'doc' if is_doc else 'elem'} tree={','.join(toks)}"
+    label = f"{LIB_EXPR[ld['kind']]} a={ld['a']!r} b={ld['b']!r}"
+    return line, kinds, (label, node if err is None else RuntimeError(err), root, is_doc)
+
+
 def request_line(case):
+    if case.get('libdoc'):
+        return libdoc_request(case)
     xml, obj, root, is_doc, doc_kids = parse_input(case)
     toks, kinds = [], []
     if is_doc:
@@ -334,6 +470,9 @@ def run_impl_inner(case, parsed):
     xml, obj, root, is_doc = parsed
     frag = case['frag']
     res = {'recs': [], 'kinds': [], 'etree': [], 'problems': []}
+    if isinstance(obj, Exception):
+        res['problems'].append('library document: ' + str(obj))
+        return res
     try:
         tree = get_node_tree(obj, namespaces=case['ns'], fragment=frag)
         nodes = list(tree.iter())
@@ -342,7 +481,9 @@ def run_impl_inner(case, parsed):
         return res
     index = {id(n): i for i, n in enumerate(nodes)}
     res['kinds'] = [node_kind(n) for n in nodes]
-    if case['lib'] == 'lxml':
+    if root is None:
+        pns = {}
+    elif case['lib'] == 'lxml':
         pns = {(k or ''): v for k, v in root.nsmap.items()}
     else:
         pns = dict(case['ns'] or {})
@@ -402,16 +543,49 @@ def run_impl_inner(case, parsed):
                 res['problems'].append(f'node.path changed between two reads: {p!r} {n.path!r}')
         except Exception as e:
             res['problems'].append('second read of node.path: ' + err_text(e))
-    # fn:path on the empty sequence and on a node of another tree is the empty sequence (F&O 14.6 / evaluate__path)
+    # fn:path(()) is the empty sequence; fn:path of a node of ANOTHER tree (not under the context root) is that
+    # node's path in its own tree (F&O 3.1 14.6 has no "context root" condition)
     try:
-        for expr, item in (('path(())', None), ('path(.)', 'foreign')):
-            if item == 'foreign':
-                item = get_node_tree(obj, namespaces=case['ns'], fragment=frag)
-            out = list(P1(namespaces=pns).parse(expr).select(XPathContext(tree, item=item, fragment=frag)))
-            if out != []:
-                res['problems'].append(f'{expr} on {"a node of another tree" if item is not None else "()"} gave {out!r:.60}')
+        out = list(P1(namespaces=pns).parse('path(())').select(XPathContext(tree, fragment=frag)))
+        if out != []:
+            res['problems'].append(f'path(()) gave {out!r:.60}')
+        if not case.get('libdoc'):
+            other = get_node_tree(obj, namespaces=case['ns'], fragment=frag)
+            onodes = list(other.iter())
+            if other is not tree and len(onodes) == len(nodes):
+                for j in sorted({0, len(onodes) // 2, len(onodes) - 1}):
+                    got = list(P1(namespaces=pns).parse('path(.)').select(XPathContext(tree, item=onodes[j], fragment=frag)))
+                    if got != [res['recs'][j][1]]:
+                        res['problems'].append(f'[F14h] path(.) of node {j} of another tree (same input) gave {got!r:.80}, '
+                                               f'expected {res["recs"][j][1]!r:.80}')
     except Exception as e:
-        res['problems'].append('fn:path empty cases: ' + err_text(e))
+        res['problems'].append('fn:path on () / foreign node: ' + err_text(e))
+    # a library-produced document used inside one expression: the paths of all its nodes, in document order
+    if case.get('libdoc'):
+        try:
+            import xml.etree.ElementTree as _ET
+            import lxml.etree as _LE
+            ld = case['libdoc']
+            xroot = (_ET if case['lib'] == 'et' else _LE).XML('<x/>')
+            expected = [r[1] for r, kd in zip(res['recs'], res['kinds']) if kd[0] in ('doc', 'elem', 'text', 'comment', 'pi')]
+            call = LIB_EXPR[ld['kind']]
+            if res['kinds'] and res['kinds'][0][0] == 'doc':
+                # (the kind test node() of this implementation does not match a document node, so the
+                #  document itself is asked separately)
+                exprs = [('$d/path()', expected[:1]), ('$d//node()/path()', expected[1:]),
+                         (call + '/path()', expected[:1]), (call + '//node() ! path(.)', expected[1:]),
+                         (f'let $e := {call} return $e/descendant::node()/path()', expected[1:])]
+            else:
+                exprs = [('$d/descendant-or-self::node()/path()', expected),
+                         (call + '/descendant-or-self::node() ! path(.)', expected),
+                         (f'let $e := {call} return $e//node()/path()', expected[1:])]
+            for expr, exp in exprs:
+                got = list(P1(namespaces=pns).parse(expr).select(
+                    XPathContext(xroot, variables={'d': tree, 'a': ld['a'], 'b': ld['b']})))
+                if got != exp:
+                    res['problems'].append(f'[F14h] {expr} gave {got!r:.200} expected {exp!r:.200}')
+        except Exception as e:
+            res['problems'].append('library document inside one expression: ' + err_text(e))
     # the same tree iterated without building lazy components must be the same node sequence
     try:
         if [id(x) for x in tree.iter_lazy()] != [id(x) for x in nodes]:
@@ -420,7 +594,7 @@ def run_impl_inner(case, parsed):
         res['problems'].append('iter_lazy:' + err_text(e))
     # a lazily built tree (LazyElementNode): same paths, each selecting its node
     res['lazy'] = None
-    if not is_doc and not frag and (case['lib'] == 'lxml' or not case['ns']):
+    if not is_doc and not frag and not case.get('libdoc') and (case['lib'] == 'lxml' or not case['ns']):
         try:
             from elementpath import LazyElementNode
             from elementpath.xpath_nodes import ElementNode
@@ -448,6 +622,9 @@ def run_impl_inner(case, parsed):
         except Exception as e:
             res['problems'].append('lazy:' + err_text(e))
     # etree_iter_paths on the root element
+    if root is None:
+        res['etree'] = None
+        return res
     try:
         rnode = tree if not isinstance(tree, DocumentNode) else tree.getroot()
         elem_index = {}
@@ -586,7 +763,7 @@ def compare(run: Run, cases: list, count=True) -> None:
         try:
             line, kinds, parsed = request_line(case)
         except Exception as e:   # generator produced something the XML parser rejects: harness bug
-            raise RuntimeError(f'generator produced unparsable input {ser_doc(case["doc"])!r}: {e}')
+            raise RuntimeError(f'generator produced unparsable input {case.get("libdoc") or ser_doc(case["doc"])!r}: {e}')
         prepared.append((case, line, kinds, parsed))
     answers = run.driver('C14', [p[1] for p in prepared])
     st = run.stats
@@ -594,6 +771,8 @@ def compare(run: Run, cases: list, count=True) -> None:
         xml = parsed[0]
         base = {'xml': xml, 'lib': case['lib'], 'form': case['form'], 'frag': case['frag'], 'ns': case['ns'],
                 'parser_ns': case['pns'], 'v31_first': case['v31'], 'doc': case['doc']}
+        if case.get('libdoc'):
+            base['libdoc'] = case['libdoc']
         if ans.startswith('bad-'):
             run.disagree(Disagreement(base, 'driver:' + ans, what='protocol'))
             continue
@@ -604,7 +783,10 @@ def compare(run: Run, cases: list, count=True) -> None:
             run.disagree(Disagreement(base, 'input', 'wf=0', what='model-wf (duplicate attribute name or prefix)'))
             continue
         for pb in impl['problems']:
-            run.disagree(Disagreement(base, pb, None, spec='no-problem', what='impl-problem', site='xpath_nodes'))
+            # '[F14h]': fn:path was asked for a node whose tree root is not the context root (trigger of F14h)
+            tags = ['F14h'] if pb.startswith('[F14h] ') else []
+            run.disagree(Disagreement(base, pb, None, spec='no-problem', what='impl-problem', tags=tags,
+                                      site='xpath_nodes / evaluate__path'))
         if impl['problems'] and not impl['kinds']:
             continue
         if impl['kinds'] != kinds:
@@ -660,12 +842,14 @@ def compare(run: Run, cases: list, count=True) -> None:
                     break
                 seen[r[col]] = k
         # etree_iter_paths
-        ie = [';'.join(r) for r in impl['etree']]
+        ie = [';'.join(r) for r in (impl['etree'] or [])]
         me = [';'.join(r) for r in metree]
         se = [';'.join(r) for r in setree]
         if me != se:
             run.broken.append(f'model-vs-spec-etree:{line[:120]}')
-        if len(ie) != len(se):
+        if impl['etree'] is None:
+            pass                                  # no root element object to hand to etree_iter_paths
+        elif len(ie) != len(se):
             run.disagree(Disagreement(base, '|'.join(ie), '|'.join(me), spec='|'.join(se),
                                       what='etree_iter_paths-nodes', site='etree.etree_iter_paths'))
         else:
@@ -716,7 +900,7 @@ def compare(run: Run, cases: list, count=True) -> None:
             st.count('etree-paths', len(ie))
             if any(kd == ('ns', '') for kd in kinds):
                 st.count('default-namespace-node')
-            if case['doc']['pre'] or case['doc']['post']:
+            if case['doc'] and (case['doc']['pre'] or case['doc']['post']):
                 st.count('document-level-comment-or-pi')
 
 
@@ -793,10 +977,29 @@ def corpus():
     return out
 
 
+def lib_corpus():
+    out = []
+    frs = ['top<a/><a>u</a><?p d?><!--c-->', '<a/><b/>', 'just text', '', '<a><b/>t<b/></a>', '<a/>tail',
+           '<?x d?><r><?x e?></r><?x f?>', 't1<p:a xmlns:p="urn:p"><p:a/></p:a>t2<p:a xmlns:p="urn:p"/><a xmlns="urn:p"/>',
+           '<!--c--><r/><!--d-->']
+    for lib in ('et', 'lxml'):
+        for a in frs:
+            out.append({'libdoc': {'kind': 'parse-xml-fragment', 'a': a, 'b': ''}, 'doc': None, 'lib': lib,
+                        'form': 'lib:parse-xml-fragment', 'frag': None, 'ns': None, 'pns': 0, 'v31': True})
+        out.append({'libdoc': {'kind': 'parse-xml', 'a': '<a><b/>t<b/></a>', 'b': ''}, 'doc': None, 'lib': lib,
+                    'form': 'lib:parse-xml', 'frag': None, 'ns': None, 'pns': 1, 'v31': True})
+        out.append({'libdoc': {'kind': 'json-to-xml', 'a': '{"a":[1,2,{"b":null}],"c":"t","a2":true}', 'b': ''}, 'doc': None,
+                    'lib': lib, 'form': 'lib:json-to-xml', 'frag': None, 'ns': None, 'pns': 2, 'v31': True})
+        out.append({'libdoc': {'kind': 'analyze-string', 'a': 'ab12cd3', 'b': '[0-9]+'}, 'doc': None, 'lib': lib,
+                    'form': 'lib:analyze-string', 'frag': None, 'ns': None, 'pns': 0, 'v31': True})
+    return out
+
+
 def correspond(run: Run) -> None:
     rng = run.rng
     n = run.scale(1500, 24000)
-    cases = corpus() + [gen_case(rng, run.quick) for _ in range(n)]
+    cases = corpus() + lib_corpus() + [gen_case(rng, run.quick) for _ in range(n)] \
+        + [gen_libcase(rng) for _ in range(n // 5)]
     run.stats.rule = (
         'random XML documents (<= ~25 content nodes + namespace/attribute nodes, depth <= 3; element names from 4 locals x '
         '{no namespace, urn:p via two prefixes, urn:q, default namespace incl. un-declaration}; PI targets from 23 NCNames incl. '
@@ -893,7 +1096,7 @@ def reductions(doc):
 
 def case_of(d: Disagreement):
     c = d.case
-    if not isinstance(c, dict) or 'doc' not in c:
+    if not isinstance(c, dict) or c.get('doc') is None:
         return None
     return {'doc': c['doc'], 'lib': c['lib'], 'form': c['form'], 'frag': c['frag'], 'ns': c['ns'],
             'pns': c.get('parser_ns', False), 'v31': c.get('v31_first', False)}
@@ -946,7 +1149,10 @@ def body(run: Run) -> int:
             data = json.loads(Path(replay).read_text())
             fi = data.get('failing_input') or {}
             c = fi.get('case') or {}
-            if 'doc' in c:
+            if c.get('libdoc'):
+                compare(run, [{'libdoc': c['libdoc'], 'doc': None, 'lib': c['lib'], 'form': c['form'], 'frag': None,
+                               'ns': None, 'pns': c.get('parser_ns', 0), 'v31': True}])
+            elif c.get('doc'):
                 compare(run, [{'doc': c['doc'], 'lib': c['lib'], 'form': c['form'], 'frag': c['frag'], 'ns': c['ns'],
                                'pns': c.get('parser_ns', False), 'v31': c.get('v31_first', False)}])
             else:
